@@ -131,6 +131,18 @@ func runMux(e *Env) {
 	e.Note("tasks", nTasks)
 	e.Note("ops", nOps)
 	e.Note("flood", flood)
+	// ... and there the node may never answer at all: every id ends up held by a request that
+	// was written, timed out and is still owed its answer
+	blackhole := flood && !e.NoFaults && tp.Chance(1, 2)
+	e.Note("blackhole", blackhole)
+	if blackhole {
+		// one connection, enough requests to use up its 127 ids, and no limit on timeouts
+		k.MaxSteps = 1500
+		numConns = 1
+		timeoutLimit = 0
+		gocql.TimeoutLimit = 0
+		k.Fault("node.answers-nothing")
+	}
 
 	cfg := BaseConfig(cl, "10.0.0.1")
 	gocql.VerifDisableControlConn(cfg, true)
@@ -185,6 +197,9 @@ func runMux(e *Env) {
 		if faultsOn {
 			kind = tp.Weighted([]int{12, 3, 2})
 		}
+		if blackhole {
+			kind = 2
+		}
 		switch kind {
 		case 1:
 			k.Fault("reply.server-error")
@@ -216,19 +231,22 @@ func runMux(e *Env) {
 			"exec.afterWrite", "exec.timedOut", "recv.removed", "recv.deliver", "release.beforeClear",
 			"close.unlocked", "exec.gotStream", "exec.added", "exec.beforeWrite", "exec.gotResp",
 			"exec.ctxDone", "recv.lateRelease", "recv.header", "close.deliver", "exec.writeErr", "exec.connDone",
-			"wc.enqueued", "wc.beforeFlush", "dw.acquired", "release.afterClear", "release.afterClear",
+			"wc.enqueued", "wc.beforeFlush", "dw.acquired", "release.afterClear", "release.afterClear", "exec.enter",
 		}, 3, 12)
 	}
 
 	// ---- workload ----
 	// targeted parks: for some requests, a point at which that very request is held (drawn
 	// here, on the root goroutine)
-	armPoints := []string{"release.afterClear", "release.beforeClear", "exec.beforeWrite", "exec.added", "exec.gotStream", "exec.afterWrite", "exec.writeErr"}
+	armPoints := []string{"exec.enter", "exec.enter", "release.afterClear", "release.beforeClear", "exec.beforeWrite", "exec.added", "exec.gotStream", "exec.afterWrite", "exec.writeErr"}
 	armNext := make([][]string, nTasks)
 	for ti := range armNext {
 		n := nOps
 		if flood {
 			n = 40
+		}
+		if blackhole {
+			n = 90
 		}
 		armNext[ti] = make([]string, n)
 		for oi := range armNext[ti] {
@@ -243,6 +261,9 @@ func runMux(e *Env) {
 			n := nOps
 			if flood {
 				n = 40
+			}
+			if blackhole {
+				n = 90
 			}
 			for oi := 0; oi < n; oi++ {
 				token := fmt.Sprintf("tok-%d-%d", ti, oi)
@@ -283,6 +304,12 @@ func runMux(e *Env) {
 				op.got = got
 				mu.Unlock()
 				k.OpDone()
+				if op.outcome == "no-streams" {
+					k.Probe("request-refused-for-lack-of-stream-ids")
+				}
+				if blackhole && op.outcome == "no-connections" {
+					k.Probe("no-connection-with-a-free-stream-id")
+				}
 				k.Rec("ret %s %s %s", token, op.outcome, got)
 				muxCheckOutcome(k, op, err, got)
 			}
